@@ -137,7 +137,7 @@ def run_cvc5(smt2, timeout_s):
 def solve_all(obls, timeout_s=30, procs=None, use_cvc5=True):
     jobs = []
     for o in obls:
-        has_bytes = any(z3.is_seq(t) and not z3.is_string(t) for t in o.inputs.values())
+        has_bytes = any(z3.is_seq(t) and not z3.is_string(t) and t.sort() == z3.SeqSort(z3.IntSort()) for t in o.inputs.values())
         jobs.append((o.name, o.smt2(), set(str(k) for k in o.inputs), timeout_s, use_cvc5,
                      o.smt2(byte_ranges=True) if has_bytes else None))
     procs = procs or min(16, max(1, len(jobs)))
